@@ -188,6 +188,7 @@ fn gen_history(rng: &mut Rng, len: usize, bias: u32, undo_redo: u64, flush: u64)
             }
             Cmd::Flush => {}
         }
+        assert_eq!(Cmd::decode(&cmd.encode()).as_ref(), Some(&cmd), "codec round trip");
         cmds.push(cmd);
     }
     cmds
@@ -490,10 +491,17 @@ fn run_c01(cmds: &[Cmd], want: Option<&str>) -> Run {
             Err(_) => out.tags.push(format!("c01:{kind}:err")),
             Ok(()) => {}
         }
-        if res.is_err() || d1.0 != d0.0 + 1 {
-            if res.is_ok() {
-                out.tags.push(format!("c01:{kind}:ok-no-history"));
+        if res.is_err() {
+            // C01 speaks about histories in which a failed op changes nothing (that is C04): a failed op
+            // that edited the workbook or the stacks leaves a state the rest of the history cannot be judged on
+            if d1 != d0 || snap_en(&mut m, false) != before {
+                out.tags.push(format!("c01:aborted:failed-op-changed-state:{kind}"));
+                return out;
             }
+            continue;
+        }
+        if d1.0 != d0.0 + 1 {
+            out.tags.push(format!("c01:{kind}:ok-no-history"));
             continue;
         }
         out.tags.push(format!("c01:{kind}:ok-recorded"));
@@ -704,7 +712,10 @@ fn run_c02(cmds: &[Cmd], want: Option<&str>) -> Run {
                     if s != timeline[cursor] {
                         let d = snapshot_diff(&timeline[cursor], &s);
                         fail!(idx, format!("c02:undo:{}:{}", kinds[cursor], first_class(&d)), format!("position {cursor}: recorded vs after undo: {}", diff_text(&d)));
-                        timeline[cursor] = s; // report a defect once, at its source
+                        // the leftover of a wrong undo persists at every earlier position: the timeline is
+                        // no longer a valid spec for the rest of this history
+                        out.tags.push("c02:aborted:after-mismatch".into());
+                        break;
                     }
                 } else {
                     out.tags.push("c02:undo:at-start".into());
@@ -725,7 +736,8 @@ fn run_c02(cmds: &[Cmd], want: Option<&str>) -> Run {
                     if s != timeline[cursor] {
                         let d = snapshot_diff(&timeline[cursor], &s);
                         fail!(idx, format!("c02:redo:{}:{}", kinds[cursor - 1], first_class(&d)), format!("position {cursor}: recorded vs after redo: {}", diff_text(&d)));
-                        timeline[cursor] = s;
+                        out.tags.push("c02:aborted:after-mismatch".into());
+                        break;
                     }
                 } else {
                     out.tags.push("c02:redo:at-end".into());
